@@ -106,7 +106,9 @@ def run(ctx):
     ok = False
     if isinstance(t, tuple) and t[0] == 'call' and cname(t[1]).endswith('::sub') and util.is_param(t[2], 4):
         rp = strip(t[3])
-        ok = isinstance(rp, tuple) and rp[0] == 'call' and cname(rp[1]).endswith('::transform_point') and algebra.canon(strip(rp[2])) == algebra.canon(rot) and util.is_param(rp[3], 1)
+        # R.transform_point(&p1), or the operator form R * p1 (the same operation on a point)
+        ok = isinstance(rp, tuple) and rp[0] == 'call' and len(rp) == 4 and (cname(rp[1]).endswith('::transform_point') or cname(rp[1]) == 'Mul::mul') \
+            and algebra.canon(strip(rp[2])) == algebra.canon(rot) and util.is_param(rp[3], 1)
     ctx.check(ok, 'R17.2', 'translation', fr.where(0), fr.path, 'the translation must be q1 - R*p1 with the same rotation R', found=show(t, maxdepth=5), detail='q1 - R*p1')
 
     # ---- R17.3 guards
@@ -165,12 +167,13 @@ def run(ctx):
     if cb is not None:
         clauses = []
         for t_, d, rb in cb.return_values():
-            t_ = strip(t_)
+            t_ = strip(util.inline_calls(prog, strip(t_)))
             if isinstance(t_, tuple) and t_[0] == 'bin':
                 clauses.append(t_)
                 for g, k, sw in cb.guard_terms(d[1]):
-                    if opw.truth(k) is True and isinstance(strip(g), tuple) and strip(g)[0] == 'bin':
-                        clauses.append(strip(g))
+                    g = strip(util.inline_calls(prog, strip(g)))
+                    if opw.truth(k) is True and isinstance(g, tuple) and g[0] == 'bin':
+                        clauses.append(g)
         pairs = set()
         ok = len(clauses) == 3
         for cl in clauses:
